@@ -52,24 +52,25 @@ impl<T> Mutex<T> {
 
 impl<T: ?Sized> Mutex<T> {
     pub fn lock(&self) -> LockResult<MutexGuard<'_, T>> {
-        // try lock first
-        match self.try_lock() {
-            Ok(g) => return Ok(g),
-            Err(TryLockError::WouldBlock) => {}
-            Err(TryLockError::Poisoned(e)) => return Err(e),
-        }
-
-        let cur = SyncBlocker::current();
-        // register blocker first
-        self.to_wake.push(cur.clone());
-        // inc the cnt, if it's the first grab, unpark the first waiter
-        if self.cnt.fetch_add(1, Ordering::SeqCst) == 0 {
-            self.to_wake
-                .pop()
-                .map(|w| self.unpark_one(&w))
-                .expect("got null blocker!");
-        }
         loop {
+            // try lock first
+            match self.try_lock() {
+                Ok(g) => return Ok(g),
+                Err(TryLockError::WouldBlock) => {}
+                Err(TryLockError::Poisoned(e)) => return Err(e),
+            }
+
+            let cur = SyncBlocker::current();
+            // register blocker first
+            self.to_wake.push(cur.clone());
+            // inc the cnt, if it's the first grab, unpark the first waiter
+            if self.cnt.fetch_add(1, Ordering::SeqCst) == 0 {
+                self.to_wake
+                    .pop()
+                    .map(|w| self.unpark_one(&w))
+                    .expect("got null blocker!");
+            }
+
             match cur.park(None) {
                 Ok(_) => {
                     break;
@@ -99,7 +100,13 @@ impl<T: ?Sized> Mutex<T> {
                             self.unlock();
                         }
                     }
+                    // here we don't own the lock and `cur` is given up: the release is
+                    // registered (or was already served), whoever pops `cur` passes the
+                    // lock on. never park on `cur` again, its unparker would both wake
+                    // us up and unlock on our behalf
+
                     // we ignore the cancel, just to wait the actual event
+                    // start over with a new blocker
                     if b_ignore {
                         continue;
                     }
